@@ -154,6 +154,28 @@ func trackedPhis(fn *ssa.Function) *phiInfo {
 			}
 		}
 	}
+	// a nil-able phi that merges another tracked nil-able phi (the result temporary of a helper
+	// expanded inside another expanded helper) is tracked as well
+	for changed := true; changed; {
+		changed = false
+		for _, b := range fn.Blocks {
+			for _, in := range b.Instrs {
+				p, ok := in.(*ssa.Phi)
+				if !ok {
+					break
+				}
+				if out.phis[p] || !nilable(p.Type()) {
+					continue
+				}
+				for _, e := range p.Edges {
+					if ip, ok := e.(*ssa.Phi); ok && out.phis[ip] && nilable(ip.Type()) {
+						out.phis[p] = true
+						changed = true
+					}
+				}
+			}
+		}
+	}
 	for p := range out.phis {
 		if !nilable(p.Type()) {
 			// boolean phi: incoming values that are plain conditions (or their negation) are
